@@ -68,8 +68,8 @@ def strip_sg(t):
 
 def _run_core(chk, S: Session):
     chk.assume("controller parameters: 0 < factor_min < 1 <= factor_max, 0 < safety < 1, exponents > 0")
-    chk.assume("error_power > 0 (it is norm ** (-1/rate) of a non-negative norm)")
-    chk.assume("save_at is non-decreasing and eps >= 0")
+    chk.assume("error_power in (0, +inf] (it is norm ** (-1/rate) of a non-negative norm; +inf when the error estimate vanishes)")
+    chk.assume("save_at is strictly increasing and eps >= 0")
     chk.trust("flow.while_loop(cond, body, init): iterates body while cond", "flow.cond / flow.switch select exactly one branch",
               "flow.scan threads the carry in order", "np.minimum / np.maximum / np.where are elementwise min / max / select")
     r1 = chk.rule("R-C06-1", "acceptance gate: the rejection loop continues iff the acceptance factor of the last attempt is < 1; the factor is the error estimate of that attempt; only the loop result is promoted", floor=10)
